@@ -1,0 +1,17 @@
+//go:build verif
+
+// Machine-checked contracts for package x509tools (comment-only; see /verif/DESIGN.md).
+
+package x509tools
+
+//@ func SameKey
+//@   property C07
+//@   pure
+//@   ghost compares int = 0
+//@   ghost allEqual bool = true
+//@   on call (*math/big.Int).Cmp(a, b) ret (c): compares = compares + 1; allEqual = allEqual && c == 0
+//@   ensures @same_algorithm ret0 ==> (istype(cur(pub1), *rsa.PublicKey) && istype(cur(pub2), *rsa.PublicKey)) || \
+//@        (istype(cur(pub1), *ecdsa.PublicKey) && istype(cur(pub2), *ecdsa.PublicKey))
+//@   ensures @rsa_same_modulus_and_exponent ret0 && istype(cur(pub1), *rsa.PublicKey) ==> compares == 1 && allEqual && \
+//@        unbox(cur(pub1), *rsa.PublicKey).E == unbox(cur(pub2), *rsa.PublicKey).E
+//@   ensures @ecdsa_same_point ret0 && istype(cur(pub1), *ecdsa.PublicKey) ==> compares == 2 && allEqual
